@@ -1,6 +1,26 @@
 """C07 — position maps and cursor are valid, ordered and mutually consistent."""
 import random
-from .. import common, corpus, registry, suite_translate as st
+from .. import common, corpus, suite_translate as st
+
+THEOREMS = [
+    "Lou.C07.clampArr_range", "Lou.C07.scan_mono", "Lou.C07.scan_lt", "Lou.C07.scan_nonneg",
+    "Lou.C07.scan_clamp_le",
+    "Lou.C07.fwd_inputPos_range", "Lou.C07.fwd_outputPos_mono", "Lou.C07.fwd_outputPos_range",
+    "Lou.C07.fwd_roundtrip", "Lou.C07.fwd_cursor_mapped",
+    "Lou.C07.back_outputPos_range", "Lou.C07.back_inputPos_mono", "Lou.C07.back_inputPos_range",
+    "Lou.C07.back_roundtrip",
+]
+
+CLAIM = dict(
+    text=("Kernel-checked theorems (LouProofs/C07.lean) that the final position computation of both drivers yields "
+          "in-range inputPos, non-decreasing scanned maps for ANY integer posMapping, and in-range outputPos / "
+          "round-trip under the NonNeg hypothesis the proof forces (negation proved on concrete witnesses); tied to the "
+          "code by trace validation: hook H4 exports every real pass and the composed map, the compiled Lean driver "
+          "must reproduce the API result bit for bit on every call; the property text is evaluated on every "
+          "implementation result as the search oracle."),
+    note="Engines are parameters (Layer A): what a pass does is recorded, not modelled; the one-to-one identity clause is proved in C11.",
+    technique="Lean 4 proof over a hand-written driver model + trace-validation correspondence (H4) + oracle search",
+    design="DESIGN.md §7 C07")
 
 
 def oracle(k):
@@ -55,7 +75,7 @@ def oracle(k):
 def run(tier):
     v = common.Verdict("C07", tier)
     rng = random.Random(common.seed() * 1000003 + 7)
-    common.lean_obligations(v, registry.THEOREMS["C07"])
+    common.lean_obligations(v, THEOREMS)
     try:
         exe = common.build_harness()
         v.obligation("harness builds from /repo working tree (hooks on, ASan+UBSan)", True)
